@@ -120,6 +120,7 @@ static E1Config makeCfg(const std::string &prop, Family fam, bool directed, bool
     c.mergeDifferential = (small || variant == "n1" || variant == "n2tiny") && !(prop == "C16" && tier != "thorough");
     if (prop == "C16" && tier != "thorough") c.silentSuffixStates = 1500;
     c.ctorStarts = (variant == "n2" || variant == "n2x") && prop != "C16" && prop != "C17F";
+    c.rejectedProbe = (small || variant == "n1" || variant == "n1s4" || variant == "n2tiny" || ((variant == "n3" || variant == "n3d3" || variant == "n3d4") && !labelled && fam == PLAIN)) && prop != "C16" && prop != "C17" && prop != "C17F";
     if (variant == "n2x") { c.silentSuffixStates = 300; c.mergeDifferential = false; c.statelessDepth = 2; c.allPairsCap = 600; }
     if (!c.bigSizes.empty()) { c.editNeighbours = false; c.allPairsCap = 300; c.observeEveryTransition = false; }
     if (prop == "C17" || prop == "C17F") { // configuration-matrix runs (C17): the plain search only
